@@ -90,6 +90,65 @@ fn uvarint(v: u128) -> Vec<u8> {
     }
 }
 
+
+/// Reads a protobuf varint of at most 10 bytes: (value, length).
+fn pb_varint(b: &[u8]) -> Option<(u64, usize)> {
+    let mut v = 0u64;
+    for (i, x) in b.iter().enumerate().take(10) {
+        v |= ((x & 0x7f) as u64) << (7 * i).min(63);
+        if x & 0x80 == 0 {
+            return Some((v, i + 1));
+        }
+    }
+    None
+}
+
+/// Re-emit a protobuf body with some tags written as wide varints whose low 32 bits are the
+/// original tag (quick-protobuf reads tags as 32-bit varints and ignores the rest). Nested
+/// messages (level 0: wantlist / payload / blockPresences, level 1: entries) are widened
+/// recursively when they parse; anything that does not parse is copied verbatim.
+pub fn widen_tags(rng: &mut Rng, b: &[u8], level: u8, always: bool) -> Vec<u8> {
+    let mut out = Vec::new();
+    let mut pos = 0;
+    while pos < b.len() {
+        let Some((tag, tl)) = pb_varint(&b[pos..]) else { break };
+        let rest = &b[pos + tl..];
+        let (body_len, nested): (usize, Option<(usize, usize)>) = match tag & 7 {
+            0 => match pb_varint(rest) {
+                Some((_, l)) => (l, None),
+                None => break,
+            },
+            1 if rest.len() >= 8 => (8, None),
+            5 if rest.len() >= 4 => (4, None),
+            2 => match pb_varint(rest) {
+                Some((len, ll)) if (len as usize) <= rest.len() - ll => (ll + len as usize, Some((ll, len as usize))),
+                _ => break,
+            },
+            _ => break,
+        };
+        if tag < (1 << 32) && (always || rng.chance(1, 2)) {
+            let k = *rng.pick(&[1u64, 1, 2, 0x7fff_ffff, 0xffff_ffff]);
+            refpb::varint(tag | (k << 32), &mut out);
+        } else {
+            out.extend_from_slice(&b[pos..pos + tl]);
+        }
+        let is_nested = matches!((level, tag as u32), (0, 10) | (0, 26) | (0, 34) | (1, 10));
+        match nested {
+            Some((ll, len)) if is_nested && level < 2 => {
+                let next = if level == 0 && tag as u32 == 10 { 1 } else { 2 };
+                let inner = widen_tags(rng, &rest[ll..ll + len], next, always);
+                refpb::varint(inner.len() as u64, &mut out);
+                out.extend(inner);
+            }
+            _ => out.extend_from_slice(&rest[..body_len]),
+        }
+        pos += tl + body_len;
+    }
+    out.extend_from_slice(&b[pos..]);
+    out
+}
+
+
 pub fn mutate(rng: &mut Rng, b: &[u8], sink: &mut Sink) -> Vec<u8> {
     let mut b = b.to_vec();
     if b.is_empty() {
@@ -149,6 +208,17 @@ pub fn frame_stream(seed: u64, cases: usize, ex: &mut ChildExec) -> Sink {
         let op = format!("dec {}", h);
         let imp = ex.exec(&op);
         sink.push(op, imp, "-".into());
+        // the same problem frame with its tags written as wide varints (low 32 bits unchanged)
+        let raw = crate::text::unhex(h).unwrap_or_default();
+        if raw.len() > 1 {
+            for always in [true, false, false] {
+                let wide = refpb::frame(&widen_tags(&mut rng, &raw[1..], 0, always));
+                let op = format!("dec {}", hex(&wide));
+                let imp = ex.exec(&op);
+                sink.push(op, imp, "-".into());
+                sink.count("dec.corpus.wide-tags");
+            }
+        }
     }
     for _ in 0..cases {
         let m = gen_msg(&mut rng, &mut sink);
@@ -170,10 +240,26 @@ pub fn frame_stream(seed: u64, cases: usize, ex: &mut ChildExec) -> Sink {
             let imp = ex.exec(&op);
             sink.push(op, imp, format!("ok {} {}", framed.len(), show_message(&m)));
             sink.count("dec.roundtrip");
+            if rng.chance(1, 4) {
+                let wide = refpb::frame(&widen_tags(&mut rng, &body, 0, false));
+                let op = format!("dec {}", hex(&wide));
+                let imp = ex.exec(&op);
+                sink.push(op, imp, "-".into());
+                sink.count("dec.valid.wide-tags");
+            }
         } else if r < 75 {
             let mut x = body.clone();
+            let wide = rng.below(6);
+            if wide == 0 {
+                x = widen_tags(&mut rng, &x, 0, false);
+                sink.count("dec.mutated-body.wide-tags-before");
+            }
             for _ in 0..*rng.pick(&[1usize, 1, 2, 3]) {
                 x = mutate(&mut rng, &x, &mut sink);
+            }
+            if wide == 1 {
+                x = widen_tags(&mut rng, &x, 0, false);
+                sink.count("dec.mutated-body.wide-tags-after");
             }
             let op = format!("dec {}", hex(&refpb::frame(&x)));
             let imp = ex.exec(&op);
